@@ -46,7 +46,10 @@ J viol_json(const Violation& v) {
   return j;
 }
 
+int g_watchdog_scale = 1;   // VERIF_WATCHDOG_SCALE: the memcheck stage runs 30-50x slower
+
 void common_init(const char* prop) {
+  if (const char* sc = getenv("VERIF_WATCHDOG_SCALE")) { int v = atoi(sc); if (v > 1) g_watchdog_scale = v; }
   setenv("TZ", "UTC", 1);
   setenv("LC_ALL", "C", 1);
   setlocale(LC_ALL, "C");
@@ -86,7 +89,7 @@ int cmd_worker(const std::map<std::string, std::string>& a) {
     if (only_hash && (hash_mod <= 0 || idx % hash_mod != 0)) continue;
     begin_run(idx);
     CaseBox cb = gen_case(prop, part, part.compare(0, 4, "tmpl") == 0 ? part : tier, seed, idx);
-    arm_watchdog(prop == "C12" ? 6 : 20, 120);
+    arm_watchdog((prop == "C12" ? 6 : 20) * g_watchdog_scale, 120 * g_watchdog_scale);
     Outcome o = exec_case(cb, false, &stats);
     disarm_watchdog();
     ++runs;
@@ -105,7 +108,7 @@ int cmd_worker(const std::map<std::string, std::string>& a) {
       } else {
         begin_run(idx);
         CaseBox again = cb;
-        arm_watchdog(prop == "C12" ? 6 : 20, 120);
+        arm_watchdog((prop == "C12" ? 6 : 20) * g_watchdog_scale, 120 * g_watchdog_scale);
         o2 = exec_case(again, false, nullptr);
         disarm_watchdog();
       }
@@ -165,7 +168,7 @@ int cmd_replay(const std::string& file, const std::map<std::string, std::string>
   Outcome o;
   uint64_t h0 = 0;
   for (int r = 0; r < reps; ++r) {
-    arm_watchdog(30, 600);
+    arm_watchdog(30 * g_watchdog_scale, 600 * g_watchdog_scale);
     CaseBox c2 = cb;
     o = exec_case(c2, want_log, nullptr);
     disarm_watchdog();
